@@ -29,6 +29,7 @@ type c05Case struct {
 	Two       bool   `json:"two,omitempty"`       // call cells: an unrelated entry precedes the slot
 	Empty     bool   `json:"empty,omitempty"`     // call cells: the stored value is the empty text
 	HeaderVal bool   `json:"headerval,omitempty"` // call cells: the stored value consists of lines shaped like an entry header and a near-terminator
+	Again     bool   `json:"again,omitempty"`     // call cells (slot missing): the test is executed a second time in the same process with another value
 	CRLF      bool   `json:"crlf,omitempty"`      // call cells: the pre-existing multi-entry file has CR LF line ends
 	AfterFail bool   `json:"afterfail,omitempty"` // call cells: the same test made two failing calls (invalid JSON, mismatch) into another file first
 }
@@ -60,6 +61,10 @@ func c05Gen(c *vfCtx, emit func(c05Case)) {
 					emit(c05Case{Kind: "call", CI: ci, Env: env, Opt: opt, API: api, Slot: slot, AfterFail: true})
 					if slot != "missing" && api != "ssnap" && api != "sjson" {
 						emit(c05Case{Kind: "call", CI: ci, Env: env, Opt: opt, API: api, Slot: slot, CRLF: true, Two: true})
+					}
+					if slot == "missing" {
+						// the file does not exist when the run starts; the same test runs twice (-count 2): the second execution meets what the first left
+						emit(c05Case{Kind: "call", CI: ci, Env: env, Opt: opt, API: api, Slot: slot, Again: true})
 					}
 					if c.thorough() {
 						emit(c05Case{Kind: "call", CI: ci, Env: env, Opt: opt, API: api, Slot: slot, Two: true, Color: true})
@@ -241,6 +246,29 @@ func c05Run(c *vfCtx, cs c05Case) {
 			c.violation("", fmt.Sprintf("cell %+v: the call may not write but the directory changed: %s", cs, d), cs)
 		}
 		return
+	}
+	if cs.Again && want == "added" {
+		// second execution of the same test in the same process, with the OLD value: the slot exists now and holds the new one
+		t1 := &vfT{name: "TestA"}
+		mk1 := t1.mark()
+		ops1 := vfLogged(func() { vfCall{API: cs.API, Val: old, Upd: cs.Opt}.do(t1, dir) })
+		t1.end()
+		c.count("transitions", 1)
+		want1 := "failed"
+		if m.canUpdate(cs.Opt) {
+			want1 = "updated"
+		}
+		if got1 := t1.outcome(mk1); got1 != want1 {
+			c.violation("", fmt.Sprintf("cell %+v: second execution of the test in the same process with another value signalled %s, the mode table says %s %v", cs, got1, want1, t1.errs), cs)
+			return
+		}
+		if want1 == "failed" {
+			if muts := vfMutOps(ops1); len(muts) > 0 {
+				c.violation("", fmt.Sprintf("cell %+v: the second execution may not write but performed %s", cs, vfShowOps(muts)), cs)
+			}
+		} else {
+			neu = old
+		}
 	}
 	// allowed write: a following read-only run replays the new value
 	vfResetState(true, "", true)
